@@ -9,7 +9,8 @@ gdb.execute('break stop')
 gdb.execute('run')
 gdb.execute('up')
 NAMES = ['s_empty', 's_inline', 's_full', 's_heap', 's_heapinl', 's_shrunk', 'z_empty', 'z_heap', 'p_inline', 'p_heap', 'a_inline', 'a_heap',
-         's_moved_from', 's_moved_to', 's_default', 'it_begin', 'it_mid', 'it_p']
+         's_moved_from', 's_moved_to', 's_default', 'ld_inline', 'ld_heap', 'w_inline', 'w_heap', 'w_zero', 'd_inline', 'b_inline',
+         't_inline', 't_heap', 'it_ld', 'it_w', 'it_begin', 'it_mid', 'it_p']
 for n in NAMES:
     try:
         v = gdb.parse_and_eval(n)
@@ -27,5 +28,5 @@ def shape(t, depth=0):
             nested = shape(f.type, depth + 1) if (f.is_base_class or (sub.code in (gdb.TYPE_CODE_STRUCT, gdb.TYPE_CODE_UNION) and not static and depth < 4)) else None
             out['fields'].append({'name': f.name, 'base': bool(f.is_base_class), 'static': static, 'type': nested})
     return out
-for n in ('s_inline', 'z_heap', 'a_heap', 'it_mid'):
+for n in ('s_inline', 'z_heap', 'a_heap', 'it_mid', 'w_inline', 'ld_heap', 't_heap'):
     print('SHAPE %s %s' % (n, json.dumps(shape(gdb.parse_and_eval(n).type))))
